@@ -82,7 +82,7 @@ CLAIMED = {
    tech='TLA+ heap/aliasing model, TLC BFS over histories + replay + trace validation'),
  'C10': dict(engine='cache', cat='model_checking', ref='DESIGN.md section 6 C10',
    text='Cache.tla transcribes CacheDataset.__getitem__ / check() / copy (shared _cache, per-instance latch) with the upstream value of example i at its k-th computation = <<i, k>> ("freshly random per call"): histories of access by index of either sign, key, slice, iteration, items, copy, thread-prefetch worker, monotone MemDrop, eager snapshot. TLC enumerates all histories (quick: 3 examples, <= 4 steps) and checks the design; each is replayed on the real library (psutil.virtual_memory patched, call counters per example) plus seeded random long histories; TLC judges Transparent, FirstValue, ComputeOnce, NoCachingAfterDrop, FrozenBeforeDrop, AlwaysProduced, EagerSnapshot on the real observations.',
-   note='Memory is monotone (once low, stays low) as the quantifier states; the per-instance latch is therefore unobservable. Thread-prefetch access is sequentialised (copy(freeze) + ordered access).',
+   note='Memory is monotone (once low, stays low) as the quantifier states; the per-instance latch is therefore unobservable. Thread-prefetch access is sequentialised in Cache.tla (copy(freeze) + ordered access); pool workers that request one example twice (tile(2).prefetch, [[0,0,1,1,..]].prefetch) are additionally model checked at the granularity of the code in CacheRace.tla (lookup / compute / store; Atomic = FALSE is refuted: open finding S21) and executed on the real library under seeded line-level schedules of harness/detsched.py (sampling of interleavings, not all of them).',
    tech='TLA+ model of the memory cache, TLC BFS over access histories + replay + trace validation'),
 }
 
